@@ -141,6 +141,7 @@ func reorgProperty(rt *rapid.T, ev *evid.Rec, o machineOpts, prop string) {
 		nth    int // fire on the nth matching request
 		seen   int
 		fired  bool
+		inBatch bool // the reorg lands while the node is answering the batch (before its last element)
 	}
 	var pending *pend
 	w.SetHook(func(s *SourceCfg, n *sim.Node, ri sim.ReqInfo) *sim.Fault {
@@ -160,16 +161,29 @@ func reorgProperty(rt *rapid.T, ev *evid.Rec, o machineOpts, prop string) {
 			return nil
 		}
 		p.fired = true
-		low, ok := m.lowestCursor(s)
-		head := n.Chain.Head().Num
-		if !ok || head <= low+1 {
-			return nil
+		land := func() {
+			low, ok := m.lowestCursor(s)
+			head := n.Chain.Head().Num
+			if !ok || head <= low+1 {
+				return
+			}
+			depth := min(p.depth, int(head-low-1))
+			if depth < 1 {
+				return
+			}
+			m.doReorg(st, s, head-uint64(depth)+1, p.txs, true)
 		}
-		depth := min(p.depth, int(head-low-1))
-		if depth < 1 {
-			return nil
+		if p.inBatch && ri.N >= 2 && (ri.Kind == "headers" || ri.Kind == "blocks") {
+			last := ri.N - 1
+			return &sim.Fault{Between: func(i int) {
+				if i == last {
+					m.logf("  (the reorg lands while the node answers the %s batch: its last element comes from the new chain)", ri.Kind)
+					m.label("reorg-in-batch")
+					land()
+				}
+			}}
 		}
-		m.doReorg(st, s, head-uint64(depth)+1, p.txs, true)
+		land()
 		return nil
 	})
 	// (The per-commit Auditor of C01/C02 is not used here: a reorg landing between
@@ -297,7 +311,14 @@ func reorgProperty(rt *rapid.T, ev *evid.Rec, o machineOpts, prop string) {
 		case 4, 5, 6: // schedule a reorg inside the next step
 			kinds := []string{"", "headers", "blocks", "logs", "receipts", "traces", "latest", "hash"}
 			pending = &pend{kind: rapid.SampledFrom(kinds).Draw(rt, "midkind"), k: rapid.IntRange(1, 6).Draw(rt, "k"), nth: rapid.IntRange(1, 2).Draw(rt, "nth"),
-				depth: rapid.IntRange(1, 4).Draw(rt, "depth"), newLen: rapid.IntRange(0, 5).Draw(rt, "newlen")}
+				depth: rapid.IntRange(1, 4).Draw(rt, "depth"), newLen: rapid.IntRange(0, 5).Draw(rt, "newlen"), inBatch: rapid.IntRange(0, 2).Draw(rt, "inbatch") == 0}
+			if pending.inBatch {
+				// the batch that is being answered holds blocks of both chains: at least two replaced
+				// heights, the new chain at least as long
+				pending.kind, pending.nth = rapid.SampledFrom([]string{"headers", "blocks"}).Draw(rt, "batchkind"), 1
+				pending.depth = rapid.IntRange(2, 4).Draw(rt, "batchdepth")
+				pending.newLen = pending.depth + rapid.IntRange(0, 1).Draw(rt, "batchlonger")
+			}
 			for j := 0; j < pending.newLen; j++ {
 				pending.txs = append(pending.txs, gen.GenTxs(rt, m.copts))
 			}
